@@ -12,7 +12,14 @@ fn build_cfg(c: &Value, counters: &[Arc<Counter>]) -> log4rs::Config {
     for (i, a) in APPENDERS.iter().enumerate() {
         b = b.appender(log4rs::config::Appender::builder().build(*a, Box::new(CountingAppender(counters[i].clone()))));
     }
-    for l in c["loggers"].as_array().unwrap() {
+    // the order in which loggers are declared is no part of a configuration (Routing.tla builds the tree from the set):
+    // every other build declares them the other way round - deeper names before their ancestors
+    static BUILDS: std::sync::atomic::AtomicUsize = std::sync::atomic::AtomicUsize::new(0);
+    let mut declared: Vec<&Value> = c["loggers"].as_array().unwrap().iter().collect();
+    if BUILDS.fetch_add(1, std::sync::atomic::Ordering::Relaxed) % 2 == 1 {
+        declared.reverse();
+    }
+    for l in declared {
         let mut lb = log4rs::config::Logger::builder().additive(l["add"].as_bool().unwrap());
         for a in l["apps"].as_array().unwrap() {
             lb = lb.appender(a.as_str().unwrap());
